@@ -511,6 +511,14 @@ func serialisedElement(p *Prog, fn *ssa.Function, v ssa.Value) ssa.Value {
 		if isNilConst(lf) {
 			continue
 		}
+		// bytes passed through a byte filter of the module (the attribute '>' escaper written out after the write): what
+		// went in (the filter itself is judged by the escape rules)
+		if fcall, ok := lf.(*ssa.Call); ok {
+			if sc := fcall.Call.StaticCallee(); sc != nil && p.InLibrary(sc) && len(fcall.Call.Args) == 1 && sc.Signature.Recv() == nil &&
+				types.TypeString(sc.Signature.Params().At(0).Type(), nil) == "[]byte" && sc.Signature.Results().Len() == 1 && types.TypeString(sc.Signature.Results().At(0).Type(), nil) == "[]byte" {
+				return serialisedElement(p, fn, fcall.Call.Args[0])
+			}
+		}
 		if doc, _, _ := serialisationOf(p, lf); doc != nil {
 			for _, c := range methodCallsOn(fn, "(*"+etreePath+".Document).SetRoot") {
 				if c.Call.Args[0] == doc {
